@@ -312,7 +312,7 @@ func (g *G) GuardedByGen(target Loc, holds func(cond ast.Expr, truth bool) bool,
 		for k, sc := range s.b.Succs {
 			h := held
 			if cond != nil && !h {
-				if holds(cond, k == 0) {
+				if Implied(cond, k == 0, holds) {
 					h = true
 				}
 			}
@@ -320,4 +320,26 @@ func (g *G) GuardedByGen(target Loc, holds func(cond ast.Expr, truth bool) bool,
 		}
 	}
 	return true
+}
+
+// Implied reports whether some atomic fact implied by cond == truth satisfies
+// holds. go/cfg does not decompose short-circuit conditions, so `a && b`
+// taken true implies a and b; `a || b` taken false implies !a and !b; `!a`
+// flips the polarity.
+func Implied(cond ast.Expr, truth bool, holds func(atom ast.Expr, truth bool) bool) bool {
+	cond = ast.Unparen(cond)
+	switch e := cond.(type) {
+	case *ast.UnaryExpr:
+		if e.Op == token.NOT {
+			return Implied(e.X, !truth, holds)
+		}
+	case *ast.BinaryExpr:
+		switch {
+		case e.Op == token.LAND && truth, e.Op == token.LOR && !truth:
+			return Implied(e.X, truth, holds) || Implied(e.Y, truth, holds)
+		case e.Op == token.LAND || e.Op == token.LOR:
+			return false
+		}
+	}
+	return holds(cond, truth)
 }
